@@ -228,6 +228,8 @@ def run(ctx):
             jobs.append(([it], {"PYTHONHASHSEED": "1"}, None, "hashseed1"))
             jobs.append(([it], {"PYTHONHASHSEED": "4242"}, None, "hashseed4242"))
             jobs.append(([it], None, work, "cwd"))
+            jobs.append(([it], {"TZ": "Asia/Tokyo", "LANG": "C", "LC_ALL": "C", "HOME": "/nonexistent", "USER": "someone",
+                                "COLUMNS": "40", "SHROUD_UNRELATED": "1", "PYTHONHASHSEED": "random"}, None, "environment"))
         with ThreadPoolExecutor(14) as ex:
             list(ex.map(lambda j: check_seq(j[0], env=j[1], cwd=j[2], kind=j[3]), jobs))
         # populated output directory: run B into a directory that already holds A's output
